@@ -287,7 +287,8 @@ def run(case, ctx):
                     if case["explicit"]:
                         c.connect("urn:nfc:sn:snep")
                     if kind == "put":
-                        out["result"] = c.put_octets(msg)
+                        out["result"] = c.put_octets(
+                            bytearray(msg) if case["seed"] & 1 else msg)
                     else:
                         out["result"] = c.get_octets(msg, timeout=5.0)
                     if case["explicit"]:
@@ -330,7 +331,8 @@ def run(case, ctx):
                 try:
                     c.connect(recv_miu=case["cli_miu"],
                               recv_buf=case["cli_rw"])
-                    out["sent"] = c.send_octets(msg)
+                    out["sent"] = c.send_octets(
+                        bytearray(msg) if case["seed"] & 1 else msg)
                     out["result"] = c.recv_octets(timeout=5.0)
                     out["more"] = []
                     for m in msgs[1:]:
